@@ -23,6 +23,7 @@
 #include <assert.h>
 #include <ctype.h>
 #include <errno.h>
+#include <limits.h>
 #include <stdarg.h>
 #include <stdbool.h>
 #include <stdlib.h>
@@ -1241,6 +1242,12 @@ int _vnadata_load_touchstone(vnadata_internal_t *vdip, FILE *fp,
 		_vnadata_error(vdip, VNAERR_SYNTAX, "%s (line %d) error: "
 			"expected a positive integer after [Number of Ports]",
 		    tps.tps_filename, tps.tps_line);
+		goto out;
+	    }
+	    if (tps.u.tps_int > INT_MAX / 2 / tps.u.tps_int) {
+		_vnadata_error(vdip, VNAERR_SYNTAX, "%s (line %d) error: "
+			"[Number of Ports] is too large: %d",
+		    tps.tps_filename, tps.tps_line, tps.u.tps_int);
 		goto out;
 	    }
 	    if (reference != NULL && tps.u.tps_int != tps.tps_ports) {
